@@ -40,7 +40,13 @@ SPEC = {
     ("Environment", "temperature"): (0, True, 1000), ("Environment", "wavelength"): (0, True, None),
     ("APDCharacteristics", "quantum_efficiency"): (0, False, 1), ("APDCharacteristics", "full_well_capacity"): (0, False, 10000000),
     ("APDCharacteristics", "adc_bit_resolution"): (4, False, 64), ("APDCharacteristics", "avalanche_gain"): (1, False, 1000),
+    # mode-level settings
+    ("Calibration", "pygmo_seed"): (0, False, 100000), ("Calibration", "num_islands"): (1, False, None),
+    ("Calibration", "num_best_decisions"): (0, False, None),
+    ("Algorithm", "generations"): (1, False, 100000), ("Algorithm", "population_size"): (1, False, 100000),
+    ("Algorithm", "variant"): (1, False, 18), ("Algorithm", "cr"): (0, False, 1), ("Algorithm", "m"): (0, False, 1),
 }
+DETECTOR_CLASSES = {"Geometry", "Environment", "Characteristics", "APDCharacteristics"}
 
 
 def in_spec(cf, x):
@@ -834,6 +840,229 @@ def reload_predicate(case, impl):
     return None
 
 
+# ------------------------------------------------------------------ mode-level settings (calibration, algorithm, exposure, observation, readout)
+MODE_CLASSES = {
+    "Algorithm": "pyxel/calibration/algorithm.py", "Calibration": "pyxel/calibration/calibration.py",
+    "Readout": "pyxel/exposure/readout.py", "Exposure": "pyxel/exposure/exposure.py",
+    "Observation": "pyxel/observation/observation.py",
+}
+MODE_SKIP = {"readout", "outputs", "parameters", "target_data_path", "fitness_function", "algorithm", "result_input_arguments",
+             "weights_from_file", "working_directory", "from_file", "column_range", "times", "times_from_file", "local_optimizer",
+             "nlopt_solver", "result_fit_range", "target_fit_range", "mode"}
+
+
+def mode_params(mod):
+    """constructor parameters of the mode-level classes, read off the source: (class, name, annotation text, default)"""
+    import ast
+
+    import extract
+
+    out = []
+    for cname, rel in MODE_CLASSES.items():
+        cls = extract.find_class(extract.parse(rel), cname)
+        init = extract.find_func(cls, "__init__") if cls is not None else None
+        if init is None:
+            continue
+        args = init.args.args[1:]
+        defaults = [None] * (len(args) - len(init.args.defaults)) + list(init.args.defaults)
+        msgs = " ".join(n.value for n in ast.walk(cls) if isinstance(n, ast.Constant) and isinstance(n.value, str))
+        for a, d in zip(args, defaults):
+            if a.arg in MODE_SKIP or a.annotation is None:
+                continue
+            try:
+                dv = ast.literal_eval(d) if d is not None else None
+            except Exception:  # noqa: BLE001
+                dv = None
+            out.append({"cls": cname, "name": a.arg, "ann": ast.unparse(a.annotation), "default": dv, "messages": msgs})
+    return out
+
+
+def mode_candidates(p, table_consts):
+    """boundary values, and in particular the falsy-but-legal ones (0, 0.0, False, [], ''), by declared type"""
+    import re
+
+    ann, d, name = p["ann"], p["default"], p["name"]
+    bounds = set(table_consts.get((p["cls"], name), ()))
+    m = re.search(r"'%s' must be between ([-0-9.e]+) and ([-0-9.e]+)" % re.escape(name), p["messages"])
+    if m:
+        try:
+            bounds |= {Fraction(m.group(1).rstrip(".")), Fraction(m.group(2).rstrip("."))}
+        except ValueError:
+            pass
+    vals = []
+    if "Literal[" in ann:
+        import ast
+
+        try:
+            lit = ast.parse(ann, mode="eval").body
+            for n in ast.walk(lit):
+                if isinstance(n, ast.Subscript) and getattr(n.value, "id", "") == "Literal":
+                    elts = n.slice.elts if isinstance(n.slice, ast.Tuple) else [n.slice]
+                    vals += [ast.literal_eval(e) for e in elts]
+        except Exception:  # noqa: BLE001
+            pass
+    elif "bool" in ann:
+        vals = [False, True]
+    elif "Sequence[float]" in ann:
+        vals = [[], [0.5]]
+    elif "float" in ann:
+        vals = [0.0, 0, 1.0, 0.5, 1e-9] + [float(b) + dx for b in bounds for dx in (-0.5, 0.0, 0.5)]
+    elif "int" in ann:
+        vals = [0, 1, 2] + [int(b) + dx for b in bounds for dx in (-1, 0, 1)]
+    elif ann.startswith("str"):
+        vals = ["all", "image", ""] if name == "result_type" else []
+    if d is not None and not isinstance(d, (list, tuple, dict)):
+        vals.append(d)
+    seen, res = set(), []
+    for v in vals:
+        k = (type(v).__name__, repr(v))
+        if k not in seen:
+            seen.add(k)
+            res.append(v)
+    return res
+
+
+def mode_build(cls, field, value, tmp):
+    """the object built with the Python constructor, everything else valid"""
+    from pyxel.calibration import Algorithm, Calibration
+    from pyxel.exposure import Exposure, Readout
+    from pyxel.observation import Observation, ParameterValues
+    from pyxel.pipelines import FitnessFunction
+
+    kw = {field: value}
+    if cls == "Algorithm":
+        return Algorithm(**kw)
+    if cls == "Readout":
+        return Readout(times=[1.0, 2.0], **kw)
+    if cls == "Exposure":
+        return Exposure(readout=Readout(), **kw)
+    if cls == "Observation":
+        return Observation(parameters=[ParameterValues(key="detector.environment.temperature", values=[100, 200])], **kw)
+    return Calibration(
+        target_data_path=[tmp + "/target.npy"], fitness_function=FitnessFunction(func="pyxel.calibration.fitness.sum_of_abs_residuals"),
+        algorithm=Algorithm(type="sade", generations=2, population_size=8),
+        parameters=[ParameterValues(key="detector.characteristics.quantum_efficiency", values="_", boundaries=(0.1, 0.9))],
+        result_fit_range=[0, 3, 0, 4], target_fit_range=[0, 3, 0, 4], **kw)
+
+
+def mode_yaml(cls, field, value, tmp):
+    import yaml
+
+    md = mode_docs(tmp)
+    if cls in ("Algorithm", "Calibration"):
+        doc = {"calibration": md["calibration"]}
+        (doc["calibration"]["algorithm"] if cls == "Algorithm" else doc["calibration"])[field] = value
+    elif cls == "Observation":
+        doc = {"observation": dict(md["observation"], **{field: value})}
+    elif cls == "Exposure":
+        doc = {"exposure": {field: value}}
+    else:
+        doc = {"exposure": {"readout": {"times": [1.0, 2.0], field: value}}}
+    doc["ccd_detector"] = section_doc("CCD")
+    doc["pipeline"] = {}
+    return yaml.safe_dump(doc, sort_keys=False)
+
+
+def mode_object(cfg, cls):
+    m = cfg.running_mode
+    return m.algorithm if cls == "Algorithm" else (m.readout if cls == "Readout" else m)
+
+
+def read_back(obj, field):
+    import enum
+
+    import numpy as np
+
+    v = getattr(obj, field)
+    if isinstance(v, enum.Enum):
+        v = v.value
+    if isinstance(v, np.generic):
+        v = v.item()
+    return v
+
+
+def same_value(a, b):
+    if isinstance(a, float) and isinstance(b, float):
+        return same_number(a, b)
+    return type(a) is type(b) and a == b
+
+
+def run_mode_impl(case, tmp):
+    from pyxel.configuration import loads
+
+    cls, field, value = case["cls"], case["field"], case["value"]
+    out = {}
+    reads = []
+    for _ in range(2):
+        r, obj = outcome(mode_build, cls, field, value, tmp)
+        out["ctor"] = r
+        if r != "ok":
+            out["ctor_msg"] = obj
+            break
+        if not hasattr(obj, field):
+            out["no_attribute"] = True
+            break
+        reads.append(read_back(obj, field))
+    out["ctor_reads"] = [repr(x) for x in reads]
+    out["ctor_ok"] = all(same_value(x, value) for x in reads)
+    text = mode_yaml(cls, field, value, tmp)
+    reads = []
+    for _ in range(2):
+        r, cfg = outcome(loads, text)
+        out["yaml"] = r
+        if r != "ok":
+            out["yaml_msg"] = cfg
+            break
+        o = mode_object(cfg, cls)
+        if hasattr(o, field):
+            reads.append(read_back(o, field))
+    out["yaml_reads"] = [repr(x) for x in reads]
+    out["yaml_ok"] = all(same_value(x, value) for x in reads)
+    # the attribute setter, where there is one
+    r, obj = outcome(mode_build, cls, field, case["valid"], tmp)
+    if r == "ok" and isinstance(getattr(type(obj), field, None), property) and getattr(type(obj), field).fset is not None:
+        r2, _ = outcome(setattr, obj, field, value)
+        out["setter"] = r2
+        if r2 == "ok":
+            out["setter_ok"] = same_value(read_back(obj, field), value)
+    return out
+
+
+def mode_predicate(case, impl):
+    cf = (case["cls"], case["field"])
+    v = case["value"]
+    name = "%s.%s" % cf
+    if impl.get("no_attribute"):
+        return None
+    for path in ("ctor", "yaml", "setter"):
+        if impl.get(path) == "ok" and impl.get(path + "_ok") is False:
+            reads = impl.get(path + "_reads")
+            return ("%s:%s:stored-differs" % (name, path), "%s = %r was accepted on the %s path but reads back %s"
+                    % (name, v, path, reads if reads else "another value"))
+    numeric = isinstance(v, (int, float)) and not isinstance(v, bool)
+    if numeric and "setter" in impl and (impl["ctor"] == "ok") != (impl["setter"] == "ok"):
+        return ("%s:constructor-vs-setter" % name, "%s = %r: the constructor says %s, the attribute setter says %s — not the same limits"
+                % (name, v, impl["ctor"], impl["setter"]))
+    if "yaml" in impl and (impl["ctor"] == "ok") != (impl["yaml"] == "ok"):
+        return "%s:yaml-vs-constructor" % name, "%s = %r: constructor %s, YAML %s" % (name, v, impl["ctor"], impl["yaml"])
+    if cf in SPEC and isinstance(v, (int, float)) and not isinstance(v, bool) and (cf not in MODE_INT or isinstance(v, int)):
+        inside = in_spec(cf, v)
+        for path in ("ctor", "yaml", "setter"):
+            if path not in impl:
+                continue
+            acc = impl[path] == "ok"
+            if inside and not acc:
+                return "%s:%s:rejects-in-range" % (name, path), "%s = %r is inside the documented range but the %s path refused it (%s)" % (name, v, path, impl[path])
+            if not inside and acc:
+                return ("%s:%s:accepts-out-of-range" % (name, path), "%s = %r is outside the documented range %s but the %s path accepted it"
+                        % (name, v, fmt_range(SPEC[cf]), path))
+    return None
+
+
+MODE_INT = {("Calibration", "pygmo_seed"), ("Calibration", "num_islands"), ("Calibration", "num_best_decisions"),
+            ("Algorithm", "generations"), ("Algorithm", "population_size"), ("Algorithm", "variant")}
+
+
 # ------------------------------------------------------------------ body
 def yaml_safe(d):
     return {k: v for k, v in d.items() if k != "stream"}
@@ -866,7 +1095,7 @@ def body(ck: common.Check):
             all_consts |= set(mod.consts_of(e["ctor"])) | set(mod.consts_of(e["setter"]))
         guard_cases = []
         fields = {(e["cls"], e["field"]): e for e in table}
-        for cf in sorted(set(fields) | set(SPEC)):
+        for cf in sorted(c for c in set(fields) | set(SPEC) if c[0] in DETECTOR_CLASSES):
             e = fields.get(cf)
             consts = set()
             if e is not None:
@@ -905,7 +1134,7 @@ def body(ck: common.Check):
 
         # ---- stream 5: the field under test with its neighbours present / absent / zero (constructor, YAML)
         ctx_cases = []
-        for cf in sorted(SPEC):
+        for cf in sorted(c for c in SPEC if c[0] in DETECTOR_CLASSES):
             kinds = ["APD"] if cf[0] == "APDCharacteristics" else (["CCD", "CMOS", "MKID"] if cf[0] == "Characteristics" else KINDS)
             lo, strict, hi = SPEC[cf]
             pts = [lo - 1, (lo if not strict else lo + 1), (hi + 1 if hi is not None else lo + 5), (hi if hi is not None else lo + 2)]
@@ -928,6 +1157,18 @@ def body(ck: common.Check):
                 vs[rng.randrange(len(vs))].pop("broken")
             reload_cases.append({"stream": "reload", "name": "cfg%d" % i, "versions": vs})
 
+        # ---- stream 7: mode-level settings at their boundary / falsy-but-legal values (constructor, YAML twice, setter)
+        table_consts = {(e["cls"], e["field"]): set(mod.consts_of(e["ctor"])) | set(mod.consts_of(e["setter"])) for e in table}
+        mode_cases = []
+        for prm in mode_params(mod):
+            cands = mode_candidates(prm, table_consts)
+            valid = prm["default"] if prm["default"] is not None else next((c for c in cands if c), None)
+            if (prm["cls"], prm["name"]) in SPEC:
+                lo, strict, _hi = SPEC[(prm["cls"], prm["name"])]
+                valid = lo + 1 if prm["default"] is None else prm["default"]
+            for v in cands:
+                mode_cases.append({"stream": "mode", "cls": prm["cls"], "field": prm["name"], "value": v, "valid": valid})
+
         reqs = []
         for c in guard_cases:
             reqs.append({"op": "guard", "cls": c["cls"], "field": c["field"], "x": num_json(untag_num(c["x"]))})
@@ -940,18 +1181,21 @@ def body(ck: common.Check):
                 kv = [[f, num_json(v)] for f, v in d["det"][sect].items()
                       if isinstance(v, (int, float)) and not isinstance(v, bool)]
                 doc_reqs.append({"op": "load", "cls": cls, "kv": kv})
+        mode_reqs = [{"op": "guard", "cls": c["cls"], "field": c["field"], "x": num_json(c["value"])} for c in mode_cases
+                     if (c["cls"], c["field"]) in SPEC and isinstance(c["value"], (int, float)) and not isinstance(c["value"], bool)]
         ctx_reqs = []
         for c in ctx_cases:
             kv = [[f, num_json(v)] for f, v in ctx_section(c).items() if isinstance(v, (int, float)) and not isinstance(v, bool)]
             ctx_reqs.append({"op": "load", "cls": c["cls"], "kv": kv})
-        answers = LeanDriver("C12").batch(reqs + doc_reqs + ctx_reqs)
+        answers = LeanDriver("C12").batch(reqs + doc_reqs + ctx_reqs + mode_reqs)
         for a in answers:
             if "bad" in a:
                 raise common.InfraError(f"driver rejected a request: {a}")
         a_guard = answers[: len(guard_cases)]
         a_one = answers[len(guard_cases): len(guard_cases) + len(one_cases)]
         a_doc = answers[len(guard_cases) + len(one_cases): len(reqs) + len(doc_reqs)]
-        a_ctx = answers[len(reqs) + len(doc_reqs):]
+        a_ctx = answers[len(reqs) + len(doc_reqs): len(reqs) + len(doc_reqs) + len(ctx_reqs)]
+        a_mode = iter(answers[len(reqs) + len(doc_reqs) + len(ctx_reqs):])
 
         for c, ans in zip(guard_cases, a_guard):
             impl = run_guard_impl(c)
@@ -1034,6 +1278,28 @@ def body(ck: common.Check):
             if iv != {"ctor": model_raises, "yaml": model_raises}:
                 ck.disagreement("ctx", c, {"raised": iv, "outcomes": impl}, {"raised": model_raises})
 
+        for c in mode_cases:
+            impl = run_mode_impl(c, tmp)
+            ck.case(c, nontrivial=True, stream="mode")
+            ck.count("mode:%s" % c["cls"])
+            ck.count("mode:falsy" if not c["value"] else "mode:truthy")
+            ck.count("mode:ctor=%s" % impl["ctor"])
+            why = mode_predicate(c, impl)
+            if why is not None:
+                ck.violation("C12:" + why[0], why[1], {"case": c, "impl": impl})
+            cf = (c["cls"], c["field"])
+            if cf in SPEC and isinstance(c["value"], (int, float)) and not isinstance(c["value"], bool):
+                ans = next(a_mode)
+                if cf in MODE_INT and not isinstance(c["value"], int):
+                    continue
+                if not ans.get("found"):
+                    ck.disagreement("mode", c, impl, "field not in the extracted table")
+                    continue
+                iv = {p_: impl[p_] != "ok" for p_ in ("ctor", "yaml", "setter") if p_ in impl}
+                mv = {p_: (ans["setter_raises"] if p_ == "setter" else ans["ctor_raises"]) for p_ in iv}
+                if iv != mv:
+                    ck.disagreement("mode", c, {"raised": iv, "outcomes": impl}, {"raised": mv})
+
         for c in reload_cases:
             impl = run_reload_impl(c, tmp)
             ck.case({"versions": [yaml_safe(v) for v in c["versions"]]}, nontrivial=True, stream="reload")
@@ -1049,7 +1315,10 @@ def body(ck: common.Check):
 
     ck.extra["guard_table"] = [{"cls": e["cls"], "field": e["field"], "ctor": mod.cond_json(e["ctor"]), "setter": mod.cond_json(e["setter"])} for e in table]
     ck.extra["opaque_fields"] = opaque
-    ck.rule = ("ctx: every validated field at in-range / boundary / out-of-range / nan values with the OTHER optional entries of its "
+    ck.rule = ("mode: every constructor parameter of Calibration, Algorithm, Exposure, Observation and Readout (read off the source with "
+               "its declared type) at boundary values of its guards / documented range and at the falsy-but-legal values (0, 0.0, "
+               "False, [], first enumeration member, ''), through the Python constructor (twice), a YAML document (loaded twice) "
+               "and the attribute setter, read back type-exactly; ctx: every validated field at in-range / boundary / out-of-range / nan values with the OTHER optional entries of its "
                "section present, absent or zero (all absent/present subsets up to a limit, random three-way ones, each single "
                "neighbour missing), through the constructor and a YAML document; reload: one path rewritten 2-4 times (valid "
                "documents with other values, out-of-range values, two / no running modes, two detectors) and loaded with "
@@ -1097,6 +1366,12 @@ def replay(rp):
         elif st == "ctx":
             impl = run_ctx_impl(case)
             why = ctx_predicate(case, impl)
+        elif st == "mode":
+            import numpy as np
+
+            np.save(tmp + "/target.npy", np.ones((3, 4)))
+            impl = run_mode_impl(case, tmp)
+            why = mode_predicate(case, impl)
         elif st == "reload":
             impl = run_reload_impl(case, tmp)
             why = reload_predicate(case, impl)
